@@ -29,7 +29,7 @@ ASSUMPTIONS = ['mockturtle and python-sat are absent: cut families come from vt/
                'self-checking z3 stand-in', 'vt.refsem; vt.wf']
 SUPPORTED = ['NOT', 'AND', 'OR', 'XOR', 'NAND', 'NOR', 'NXOR', 'GT', 'LT', 'GEQ', 'LEQ']
 REQUIRED = {'mon:minimize_subcircuits.checked': 60, 'synth:returned': 10, 'shrunk': 10, 'policy:faithful': 10, 'policy:shuffled': 10, 'policy:pruned': 10,
-            'policy:inputs_omitted': 5, 'validation_enabled': 10, 'no_equivalent_gates': 20, 'shim_selftest_ok': 1, 'wide_inputs_cases': 2}
+            'policy:inputs_omitted': 5, 'validation_enabled': 10, 'no_equivalent_gates': 20, 'shim_selftest_ok': 1, 'wide_inputs_cases': 2, 'big_cut_size_cases': 8}
 
 CUR = {'ctx': None, 'case': None, 'trace': None}
 
@@ -43,6 +43,9 @@ def shards(tier, seed):
             out.append({'kind': 'random', 'count': per, 'budget_s': budget, 'stream': stream, 'hashseed': str(hs + 10 * stream)})
     # circuits with more primary inputs than brute-force test sizes (the pass simulates all 2^n assignments itself)
     wide = [[17], [18]] if tier == 'quick' else [[13, 14, 15, 16, 17] * 3, [17, 18] * 4, [19, 17, 18], [16, 17, 18, 15] * 3]
+    for k in range(4):
+        out.append({'kind': 'bigcut', 'count': 6 if tier == 'quick' else 400, 'budget_s': budget, 'stream': 200 + k,
+                    'hashseed': str(k)})
     for k, ns in enumerate(wide):
         out.append({'kind': 'wide', 'n_in': ns, 'count': len(ns), 'budget_s': budget, 'stream': 100 + k, 'hashseed': str(k)})
     return out
@@ -301,27 +304,69 @@ def shim_selftest(ctx):
 
 # ------------------------------------------------------------------ workload
 
-def gen_net(rng):
+def gen_net(rng, n_in=None):
     r = rng.random()
-    if r < 0.12:
+    if r < 0.12 and n_in is None:
         return 'adder', None
-    n_in = rng.randint(2, 6)
-    shape = rng.choice(['random', 'diamond', 'chain', 'wide', 'dups', 'unary'])
-    net = netgen.rand_net(rng, n_in=n_in, n_g=rng.randint(2, 14), shape=shape, types=SUPPORTED, max_arity=2,
-                          n_out=rng.randint(1, 3), const_operands=False, allow_input_outputs=rng.random() < 0.2,
+    n_in = n_in or rng.randint(2, 6)
+    shape = rng.choice(['random', 'diamond', 'chain', 'wide', 'dups', 'unary', 'reconv', 'reconv'])
+    net = netgen.rand_net(rng, n_in=n_in, n_g=rng.randint(2, 14), shape='random' if shape == 'reconv' else shape, types=SUPPORTED,
+                          max_arity=2, n_out=rng.randint(1, 3), const_operands=False, allow_input_outputs=rng.random() < 0.2,
                           allow_repeat_outputs=rng.random() < 0.2, p_repeat_operand=0.03)
+    if shape == 'reconv':
+        net = add_reconvergence(net, rng)
     return shape, net
 
 
-def gen_case(rng, hashseed):
-    shape, net = gen_net(rng)
+def add_reconvergence(net, rng):
+    """Reconvergent fan-out: for a gate a with a transitive user w (at distance >= 2), add gates that combine a, w and a's
+    own operands - cones then have cuts whose leaves depend on other gates of the cone (non-convex regions), the
+    classic hard case of cut-based rewriting."""
+    g = dict(net.gates)
+    users = {}
+    for l, (t, ops) in g.items():
+        for o in ops:
+            users.setdefault(o, []).append(l)
+    inner = [l for l, (t, o) in g.items() if t != 'INPUT' and users.get(l)]
+    if not inner:
+        return net
+    outs = list(net.outputs)
+    for k in range(rng.randint(1, 2)):
+        a = rng.choice(inner)
+        lvl1 = users.get(a, [])
+        lvl2 = [w for v in lvl1 for w in users.get(v, [])] or lvl1
+        w = rng.choice(lvl2)
+        pool = [a, w] + list(g[a][1])
+        prev = None
+        for j in range(rng.randint(1, 3)):
+            lbl = 'rc%d_%d' % (k, j)
+            if lbl in g:
+                break
+            x = prev if prev is not None and rng.random() < 0.6 else rng.choice(pool)
+            y = rng.choice(pool)
+            t = rng.choice([t_ for t_ in SUPPORTED if t_ != 'NOT'])
+            g[lbl] = (t, (x, y))
+            prev = lbl
+        if prev is not None:
+            outs.append(prev)
+    return refsem.Net(list(net.inputs), outs, g)
+
+
+def gen_case(rng, hashseed, bigcut=False):
+    # cut_size is a free parameter of the pass (default 5); sizes above it get their own, smaller shards (cones with
+    # 6..8 leaves make the SAT calls slow, so those cases run with a solver time limit)
+    cut_size = rng.choice([6, 7, 7, 8]) if bigcut else rng.choice([2, 3, 4, 5])
+    shape, net = gen_net(rng, n_in=rng.randint(cut_size, 9) if bigcut else None)
     case = {'kind': 'random', 'shape': shape, 'rseed': rng.getrandbits(32), 'hashseed': hashseed,
             'basis': rng.choice(['AIG', 'XAIG', 'FULL', 'aig', 'xaig', 'enum:AIG', 'enum:XAIG', 'enum:FULL']),
-            'params': {'max_subcircuit_size': rng.choice([2, 3, 4, 5, 9]), 'cut_size': rng.choice([2, 3, 4, 5]),
+            'params': {'max_subcircuit_size': rng.choice([2, 3, 4, 5, 9]), 'cut_size': cut_size,
                        'cut_limit': rng.choice([3, 8, 25]), 'solver_time_limit_sec': rng.choice([0, 0, 0, 5]),
                        'enable_validation': rng.random() < 0.4},
             'policy': rng.choice(['faithful', 'faithful', 'shuffled', 'pruned', 'inputs_omitted']),
             'dedupe_first': rng.random() < 0.5}
+    if bigcut:
+        case['params'].update({'max_subcircuit_size': rng.choice([3, 4, 5]), 'solver_time_limit_sec': 2, 'cut_limit': 8})
+        case['policy'] = 'faithful'
     if shape == 'adder':
         case['adder'] = [rng.randint(2, 3), rng.choice(['sum', 'sub', 'mul2'])]
     else:
@@ -430,6 +475,9 @@ def run_shard(spec, ctx):
         if spec.get('kind') == 'wide':
             ctx.count('wide_inputs_cases')
             check_case(gen_wide_case(rng, spec['hashseed'], spec['n_in'][i]), ctx)
+        elif spec.get('kind') == 'bigcut':
+            ctx.count('big_cut_size_cases')
+            check_case(gen_case(rng, spec['hashseed'], bigcut=True), ctx)
         else:
             check_case(gen_case(rng, spec['hashseed']), ctx)
 
